@@ -5,6 +5,7 @@ mod drv_conc;
 mod drv_dddmp;
 mod drv_hashtbl;
 #[cfg(feature = "idx")]
+mod drv_mt;
 mod drv_mv;
 mod drv_names;
 mod drv_oom;
@@ -52,14 +53,13 @@ fn main() {
         "replay" => by_kind!(kind, replay, &args),
         "bggc" => by_kind!(kind, bggc, &args),
         "gcchurn" => by_kind!(kind, gcchurn, &args),
-        #[cfg(feature = "idx")]
         "tdd" => drv_mv::tdd(&args),
         #[cfg(feature = "idx")]
-        "mtbdd" => drv_mv::mtbdd(&args),
+        "mtbdd" => drv_mt::mtbdd(&args),
         #[cfg(feature = "idx")]
-        "mtconc" => drv_mv::mtconc(&args),
+        "mtconc" => drv_mt::mtconc(&args),
         #[cfg(feature = "idx")]
-        "mtoom" => drv_mv::mtoom(&args),
+        "mtoom" => drv_mt::mtoom(&args),
         "pick" => match kind.as_str() {
             "bdd" => drv_pick::pick::<BDDFunction>(&args),
             "bcdd" => drv_pick::pick::<BCDDFunction>(&args),
